@@ -118,7 +118,7 @@ def main(tier):
     chk.rule = ("one behaviour per (signature, past, steps, model instance, storage order of the input); non-trivial = past > 1 or "
                 "constants present or several types; distinct by that tuple")
     insts = instances(tier)
-    jobs = [dict(module_path=MODULE, cfg=tlc.make_cfg(constants=c, invariants=["ClosedForm", "Emit"]), constants=c, coverage=True,
+    jobs = [dict(module_path=MODULE, cfg=tlc.make_cfg(constants=c, invariants=["ClosedForm", "Emit"]), constants=c, coverage=False,
                  workers=2, timeout=3000) for c in insts]
     cases = []
     for r in tlc.run_many(jobs, parallel=8):
